@@ -1,4 +1,5 @@
 """C05 Reference counts / GC — structural clause: edge linearity (E-LIN)."""
+import ecanon
 import elin
 
 LEVEL = "E-LIN edge linearity over all bodies"
@@ -19,5 +20,6 @@ def run(ctx):
         Fp = ctx.facts("ptr")
         st = elin.run(ctx, Fp, rule="E-LIN[ptr]")
         ctx.floor("E-LIN[ptr]", "function bodies analysed", st["bodies"], 2000)
+    ecanon.check_level_swap_order(ctx, F)
     ctx.not_decided = ("exactness of counts over histories; the unsafe internals of the managers; "
                        "capacity restoration after gc")
